@@ -218,7 +218,8 @@ theorem dec_one {s : State} {r : Nat} (h1 : (s.rc r).count = 1) :
     dec true s r =
       ({ s with rc := upd s.rc r { s.rc r with count := 0, fileOpen := false },
                 arena := if s.arena (s.rc r).key = some r then upd s.arena (s.rc r).key none else s.arena,
-                deaths := upd s.deaths (s.rc r).key (s.deaths (s.rc r).key + 1) },
+                deaths := if (s.rc r).fileOpen then upd s.deaths (s.rc r).key (s.deaths (s.rc r).key + 1)
+                          else s.deaths },
        false) := by
   have h0 : (s.rc r).count ≠ 0 := by omega
   simp only [dec, if_neg h0, if_pos h1, if_true]
